@@ -97,7 +97,7 @@ class F:
         F.LOG.append((F.WHO(), item))
         if self.bad is not None and item == self.bad:
             from coba.exceptions import CobaException
-            raise {'ValueError':ValueError,'KeyError':KeyError,'CobaException':CobaException,'EOFError':EOFError,'AssertionError':AssertionError,'BrokenPipeError':BrokenPipeError}[self.exc](f"boom {item}")
+            raise {'ValueError':ValueError,'KeyError':KeyError,'CobaException':CobaException,'EOFError':EOFError,'AssertionError':AssertionError,'BrokenPipeError':BrokenPipeError,'AttributeError':AttributeError}[self.exc](f"boom {item}")
         if self.kind == 'one': return item*10
         if self.kind == 'two': return iter([item*10, item*10+1])
         if self.kind == 'odd_none': return iter([] if item % 2 else [item*10])
@@ -266,16 +266,20 @@ def sched_params(tier):
                 P.append(dict(n=n, m=m, items=items, kind='odd_none', bad=None, abandon=None, delays=dl))
                 P.append(dict(n=n, m=m, items=items, kind='two', bad=0, abandon=None, delays=dl))
                 P.append(dict(n=n, m=m, items=items, kind='two', bad=None, abandon=3, delays=dl))
+    # three workers with a filter failing on the first item; the read-wait hand-shake; a filter raising AttributeError (which ProcessLine.run inspects)
+    P += [dict(n=3, m=0, items=3, kind='one', bad=0, abandon=None, delays=dl), dict(n=3, m=1, items=2, kind='one', bad=0, abandon=None, delays=dl),
+          dict(n=2, m=0, items=2, kind='one', bad=None, abandon=None, delays=dl, rw=True), dict(n=2, m=1, items=3, kind='two', bad=None, abandon=None, delays=dl, rw=True), dict(n=3, m=1, items=3, kind='one', bad=1, abandon=None, delays=dl, rw=True),
+          dict(n=2, m=0, items=2, kind='one', bad=1, abandon=None, delays=dl, exc='AttributeError'), dict(n=2, m=1, items=2, kind='one', bad=0, abandon=None, delays=dl, exc='KeyError')]
     if tier != 'quick':
         P += [dict(n=2, m=1, items=3, kind='one', bad=None, abandon=None, delays=3), dict(n=2, m=0, items=3, kind='one', bad=1, abandon=None, delays=3),
-              dict(n=2, m=2, items=3, kind='two', bad=None, abandon=None, delays=3)]
+              dict(n=2, m=2, items=3, kind='two', bad=None, abandon=None, delays=3), dict(n=3, m=0, items=3, kind='one', bad=0, abandon=None, delays=3)]
     return P
 
-@obligation('C08','schedules', bounds={'quick':"the real Multiprocessor.filter (generator body, both callbacks, real loader and worker lines) on simulated queues/events/process glue under a delay-bounded schedule: deterministic run-to-block round-robin plus 1 delay whose position is a z3 integer over all choice points; (processes,maxtasksperchild) in {(2,0),(2,1),(1,1),(2,2)}, 1..3 items, filter with 1 or 2 outputs, raising at one item, or output abandoned after 1",
+@obligation('C08','schedules', bounds={'quick':"the real Multiprocessor.filter (generator body, both callbacks, real loader and worker lines) on simulated queues/events/process glue under a delay-bounded schedule: deterministic run-to-block round-robin plus 1 delay whose position is a z3 integer over all choice points; (processes,maxtasksperchild) in {(2,0),(2,1),(1,1),(2,2)}, 1..3 items, filter with 1 or 2 outputs, raising at one item (ValueError; AttributeError and KeyError once each), or output abandoned after 1; plus three workers with a filter failing on the first item and three configurations with the read_wait hand-shake",
                                        'thorough':"2 delays (3 for three configurations); (processes,maxtasksperchild) in 8 combinations up to 3 processes; 0..4 items; filters with 0/1/2 outputs per item"},
             functions=FUNCS+['coba.pipes.lines:ThreadLine.run'], classify=_classify, params=sched_params, budget={'quick':120,'thorough':1500},
             stubs=['spawn_context.Queue/Event -> vf.sim.SimQueue/SimEvent (instant visibility, FIFO, maxsize honoured)', 'MyProcessLine/ProcessLine glue (spawn, result pipe, join-and-callback thread) -> vf.sim.SimProcessLine on a deep copy of the real line', 'ThreadLine.start -> actor running the real ThreadLine.run'])
-def schedules(sym, n, m, items, kind, bad, abandon, delays):
+def schedules(sym, n, m, items, kind, bad, abandon, delays, rw=False, exc='ValueError'):
     from vf import sim
     import coba.pipes.lines as cpl
     sched = sim.Sched()
@@ -288,8 +292,8 @@ def schedules(sym, n, m, items, kind, bad, abandon, delays):
     cpm.spawn_context, cpm.MyProcessLine, cpm.ThreadLine = ctx, SimPL, SimTL
     F.LOG = []
     F.WHO = staticmethod(lambda: sched.current().name)
-    f = F(kind, bad, 'ValueError')
-    mp = Multiprocessor(f, n, m)
+    f = F(kind, bad, exc)
+    mp = Multiprocessor(f, n, m, rw)
     res = {}
     def consumer():
         out, err = [], None
@@ -326,7 +330,7 @@ def schedules(sym, n, m, items, kind, bad, abandon, delays):
     out, err = res['out'], res['err']
     exp_all = [o for i in range(items) if i != bad for o in f.expected(i)]
     if bad is not None:
-        sym.check(err is not None and 'boom' in str(err), f"error: the filter raised for item {bad} but the call ended with err={err!r} and outputs {out}")
+        sym.check(err is not None and 'boom' in str(err) and type(err).__name__ == exc, f"error: the filter raised {exc}('boom {bad}') but the call ended with err={err!r} and outputs {out}")
         cnt = collections.Counter(out); ce = collections.Counter(exp_all)
         sym.check(all(cnt[k] <= ce[k] for k in cnt), f"duplicate: outputs {out} contain values not produced (or produced twice)")
     elif abandon is not None:
@@ -346,10 +350,10 @@ from coba.pipes.multiprocessing import Multiprocessor
 from coba.multiprocessing import CobaMultiprocessor
 from coba.exceptions import CobaException
 class Filt:
-    def __init__(self, kind, bad): self.kind, self.bad = kind, bad
+    def __init__(self, kind, bad, exc='ValueError'): self.kind, self.bad, self.exc = kind, bad, exc
     def filter(self, item):
         item = item[0]
-        if item == self.bad: raise ValueError(f"boom {item}")
+        if item == self.bad: raise {'ValueError':ValueError,'AttributeError':AttributeError}[self.exc](f"boom {item}")
         if self.kind == 'two': return iter([item*10, item*10+1])
         if self.kind == 'pid': return (os.getpid(), item)
         return item*10
@@ -357,7 +361,8 @@ def watchdog(): time.sleep(40); print("RESULT"+json.dumps({"hang":True})); sys.s
 if __name__ == '__main__':
     threading.Thread(target=watchdog, daemon=True).start()
     cfg = json.loads(sys.argv[1])
-    mpc = (CobaMultiprocessor if cfg.get('coba') else Multiprocessor)(Filt(cfg['kind'], cfg.get('bad')), cfg['n'], cfg['m'])
+    args = (Filt(cfg['kind'], cfg.get('bad'), cfg.get('exc','ValueError')), cfg['n'], cfg['m'])
+    mpc = CobaMultiprocessor(*args) if cfg.get('coba') else Multiprocessor(*args, read_wait=bool(cfg.get('rw')))
     out, err = [], None
     try:
         for k,o in enumerate(mpc.filter(((i, str(i)*3) for i in range(cfg['items'])))):
@@ -369,12 +374,12 @@ if __name__ == '__main__':
 
 def real_params(tier):
     base = [dict(kind='one', n=2, m=0, items=5), dict(kind='two', n=2, m=1, items=4), dict(kind='one', n=2, m=2, items=5, bad=3), dict(kind='pid', n=2, m=2, items=6),
-            dict(kind='one', n=3, m=1, items=2), dict(kind='one', n=2, m=0, items=6, abandon=2), dict(kind='two', n=2, m=1, items=4, coba=True), dict(kind='one', n=1, m=1, items=3), dict(kind='two', n=2, m=0, items=4, coba=True, bad=2)]
+            dict(kind='one', n=3, m=1, items=2), dict(kind='one', n=2, m=0, items=6, abandon=2), dict(kind='two', n=2, m=1, items=4, coba=True), dict(kind='one', n=1, m=1, items=3), dict(kind='two', n=2, m=0, items=4, coba=True, bad=2), dict(kind='one', n=2, m=1, items=4, bad=2, exc='AttributeError'), dict(kind='one', n=2, m=1, items=4, rw=True), dict(kind='one', n=3, m=0, items=6, bad=0)]
     seed = int(os.environ.get('VERIF_SEED','0') or 0)
     return [base[(seed+i) % len(base)] for i in range(3)] if tier == 'quick' else base
 
-@obligation('C08','real_runs', bounds={'quick':"3 real spawn-based runs (picked by VERIF_SEED from 9 configurations: processes 1..3, maxtasksperchild 0..2, fewer items than workers, two outputs per item, raising filter, early abandonment, CobaMultiprocessor): output multiset, error propagation, per-worker item limit, termination within 40 s",
-                                       'thorough':"all 9 configurations"},
+@obligation('C08','real_runs', bounds={'quick':"3 real spawn-based runs (picked by VERIF_SEED from 12 configurations: processes 1..3, maxtasksperchild 0..2, fewer items than workers, two outputs per item, raising filter, early abandonment, CobaMultiprocessor): output multiset, error propagation, per-worker item limit, termination within 40 s",
+                                       'thorough':"all 12 configurations"},
             functions=FUNCS, raw=True, params=real_params, classify=_classify, budget={'quick':150,'thorough':600})
 def real_runs(tier, param, replay_model=None):
     d = tempfile.mkdtemp(prefix='c08_')
@@ -392,7 +397,7 @@ def real_runs(tier, param, replay_model=None):
         else:
             items = list(range(param['items']))
             if param.get('bad') is not None:
-                if not r['err'] or 'boom' not in r['err']: problems.append(f"filter raised for item {param['bad']} but the call returned err={r['err']}")
+                if not r['err'] or 'boom' not in r['err'] or not r['err'].startswith(param.get('exc','ValueError')): problems.append(f"filter raised {param.get('exc','ValueError')}('boom {param['bad']}') but the call returned err={r['err']}")
             elif param.get('abandon') is not None:
                 if r['err']: problems.append(f"abandoning the output raised {r['err']}")
             else:
